@@ -114,7 +114,22 @@ def suite_area_spellings(ctx):
             with warnings.catch_warnings():
                 warnings.simplefilter("ignore")
                 members.append(("CRS-object", _mk(CRS.from_user_input(group[0]), w, h, tuple(float(v) for v in vals)), tuple(float(v) for v in vals)))
+                # the same CRS handed over as WKT text in other renderings (pretty-printed, WKT2:2015, WKT1)
+                rerendered = set()
+                crs0 = CRS.from_user_input(group[0])
+                fext = tuple(float(v) for v in vals)
+                for wnm, kwargs in (("wkt-pretty", {"pretty": True}), ("wkt2-2015", {"version": "WKT2_2015"}), ("wkt1-gdal", {"version": "WKT1_GDAL"})):
+                    try:
+                        text = crs0.to_wkt(**kwargs)
+                        if CRS.from_wkt(text) == crs0:
+                            members.append((wnm, _mk(text, w, h, fext), fext))
+                            # pyproj itself re-renders this text differently from the CRS it compares equal to (names only): finding F26
+                            if CRS.from_wkt(text).to_wkt() != crs0.to_wkt():
+                                rerendered.add(wnm)
+                    except Exception:  # noqa: not every CRS has every rendering
+                        pass
                 members.append(("copy()", members[0][1].copy(), members[0][2]))
+                members.append(("copy-of-" + members[-2][0], members[-2][1].copy(), members[-2][2]))
                 members.append(("full-slice", members[0][1][:, :], list(members[0][1][:, :].area_extent)))
             base_nm, base, _ = members[0]
             base_dig = base.update_hash().hexdigest()
@@ -133,8 +148,9 @@ def suite_area_spellings(ctx):
                 if _keys(a, other, radius=10.0) + _keys(other, a, radius=10.0) != base_keys:
                     probs.append("resampler cache key differs")
                 if probs:
+                    known_wkt = nm.replace("copy-of-", "") in rerendered and "compare unequal" not in probs
                     ctx.fail("AreaDefinition.update_hash", "numerically identical areas in two spellings: " + ", ".join(probs), inp,
-                             tags={"kind": "spelling"}, size=10)
+                             tags={"kind": "wkt-rerendering-differs" if known_wkt else "spelling"}, size=10)
                 if ctx.M and nm != "full-slice":
                     md = _model_digest(ctx, a, list(ext))
                     if md != dig:
@@ -321,7 +337,7 @@ def suite_swath(ctx):
         hashed_then_modified = False
         hashed = False
         for _step in range(r.randrange(1, 7)):
-            op = r.choice(["hash", "hash", "append", "slice", "copy", "eq"])
+            op = r.choice(["hash", "hash", "append", "slice", "flip", "copy", "eq"])
             if op == "hash":
                 hash(obj)
                 hashed = True
@@ -341,6 +357,15 @@ def suite_swath(ctx):
                 cur_lo, cur_la = cur_lo[a:b], cur_la[a:b]
                 hashed_then_modified |= hashed
                 op = f"[{a}:{b}, :]"
+            elif op == "flip":
+                # shape-preserving slices that are NOT the identity
+                which = r.choice(["rows", "cols", "both"])
+                ys = slice(None, None, -1) if which in ("rows", "both") else slice(None)
+                xs = slice(None, None, -1) if which in ("cols", "both") else slice(None)
+                obj = obj[ys, xs]
+                cur_lo, cur_la = cur_lo[ys, xs], cur_la[ys, xs]
+                hashed_then_modified |= hashed
+                op = f"flip-{which}"
             elif op == "copy":
                 obj = obj.copy()
             elif op == "eq":
